@@ -1123,7 +1123,7 @@ def _first_token(e):
 
 
 def float_to_int(v, scalar):
-    """A float where the declared type is int (Appendix A, rule 14).  In the domain only where the conversion is exact and
+    """A float where the declared type is int (Appendix A, rule 13).  In the domain only where the conversion is exact and
     does not depend on rounding: (a) a float known without error (a literal such as 3.0 or 2e3, or a variable holding
     one) that is integral and inside int64 becomes that integer; (b) for an ``int`` scalar, a float of magnitude >=
     2**53 - integral whatever its last bits are - becomes the integer of the float the implementation computed, which the
